@@ -265,6 +265,32 @@ func init() {
 				{"info", "chord", "describe", "-t", "C_nope"}, {"info", "chord", "describe", "-t", "1m"}, {"info", "chord", "describe", "-t", "C/E"}, {"info", "chord", "describe", "-t", "C D"},
 				{"gen", "attr", "-d", "0"}, {"gen", "attr", "-d", "1"}, {"gen", "attr", "-d", "3000"}, {"gen", "attr", "-d", "-1"}, {"gen", "attr", "-d", "x"}, {"midi", "port", "out"}, {"midi", "port", "in"},
 				{"nosuch"}, {}, {"--help"}, {"text"}, {"text", "conv"}, {"write", "a", "b"}, {"text", "parse", "/nonexistent"}, {"text", "parse", "/"}, {"write", "/dev/null"}, {"write", "event", "/nonexistent.yml"}}
+			// every note / key spelling with up to two (thorough: three) accidental marks of any kind, in any mixture, wherever a
+			// flag takes a note or a key: each is understood or refused, never a crash
+			marks := []string{""}
+			depth := 2
+			if !c.quick() {
+				depth = 3
+			}
+			for d, layer := 0, []string{""}; d < depth; d++ {
+				next := []string{}
+				for _, m := range layer {
+					for _, a := range []string{"#", "b", "♯", "♭"} {
+						next = append(next, m+a)
+					}
+				}
+				marks = append(marks, next...)
+				layer = next
+			}
+			for _, l := range []string{"C", "F", "B", "H", "c"} {
+				for _, m := range marks {
+					if len([]rune(m)) < 2 && l != "H" && l != "c" {
+						continue // the ordinary spellings are everybody's daily bread
+					}
+					others = append(others, []string{"info", "attr", "describe", "-t", "Major3", "-r", l + m}, []string{"info", "key", "describe", "--key", l + m},
+						[]string{"info", "key", "conv", "--key", l + m + "m", "-c", "d"}, []string{"info", "chord", "describe", "-t", l + m + "m7"})
+				}
+			}
 			for i, o := range others {
 				cases = append(cases, Case{"kind": "x", "cmd": o, "stdin": []byte{}, "note": fmt.Sprintf("other%d", i)})
 			}
